@@ -19,11 +19,11 @@ PROP = dict(
          "MULTNUM/FLUXNUM/OPERNUM; the generator keeps an operation only if the reference defines its result on all cells. "
          "A case is non-trivial when the library accepted the deck, at least 3 operations were applied, at least one cell "
          "is inactive and at least one cell was compared with the reference; distinct = distinct deck text.",
-    stages=[dict(harness="c12_fieldprops", flavour="plain", cases={Q: 120000, T: 3000000}, timeout={Q: 900, T: 7200},
+    stages=[dict(harness="c12_fieldprops", flavour="plain", cases={Q: 120000, T: 1500000}, timeout={Q: 900, T: 7200},
                  tier_args={T: ["big=50"]})],
-    min_nontrivial={Q: 50000, T: 500000},
-    coverage_floor=[("c12_fieldprops", "cells_compared_with_reference", {Q: 15000000, T: 150000000}),
-                    ("c12_fieldprops", "cells_compared_with_all_active_run", {Q: 15000000, T: 150000000})],
+    min_nontrivial={Q: 50000, T: 468750},
+    coverage_floor=[("c12_fieldprops", "cells_compared_with_reference", {Q: 15000000, T: 140625000}),
+                    ("c12_fieldprops", "cells_compared_with_all_active_run", {Q: 15000000, T: 140625000})],
     not_decided=[
         "operations the library refuses (exceptions) are outside the comparison; a sequence the keyword rules define but the "
         "library refuses is only counted (counter refused_unexpected)",
